@@ -277,3 +277,109 @@ def specs(prop='C20'):
         Fragment('fst_options:get_option', prop, 'get_option', [dict()], run_get_option),
         Fragment('fst_options:get_options', prop, 'get_options', [dict()], run_get_options),
     ]
+
+
+ALLOWED_STATE = {
+    ('common', '_pyver_registry'): 'decorator registry filled at import time',
+    ('fst_core', '_MODIFYING'): 'modification registry, keyed by root (proved under C12: only the entry of the root being edited is touched)',
+    ('fst_misc', '_DUMP_IGNORE_FIELDS'): 'debug setter set_dump_ignore_fields()',
+    ('fst_options', '_OPTIONS'): 'threading.local instance: per-thread by the documented contract of threading.local',
+}
+OPTION_WRITERS = {'set_options', 'options', '__init__'}
+
+
+def footprint_structural(rep, prop='C20'):
+    """C20.thread.footprint / C20.per_call (structural, over all of src/fst): the module-level mutable state written after
+    import is exactly ALLOWED_STATE; _OPTIONS is an instance of a threading.local subclass and is never aliased at module
+    level; the only writers of the option store are set_options / options / _ThreadOptions.__init__."""
+    import ast
+    import glob
+    import os
+    from pyvc import frontend
+    MUT = {'update', 'append', 'add', 'clear', 'pop', 'setdefault', 'extend', 'remove', 'insert', 'discard', 'popitem',
+           'sort', 'reverse', '__setitem__', '__delitem__'}
+    found = {}
+
+    def base_name(e):
+        while isinstance(e, (ast.Attribute, ast.Subscript)):
+            e = e.value
+        return e.id if isinstance(e, ast.Name) else None
+    for path in sorted(glob.glob(os.path.join(frontend.SRC, '*.py'))):
+        mod = os.path.basename(path)[:-3]
+        tree = frontend.module(mod).tree
+        modnames = set()
+        for n in tree.body:
+            if isinstance(n, (ast.Assign, ast.AnnAssign, ast.AugAssign)):
+                for t in ast.walk(n):
+                    if isinstance(t, ast.Name) and isinstance(t.ctx, ast.Store):
+                        modnames.add(t.id)
+        for fn in ast.walk(tree):
+            if not isinstance(fn, (ast.FunctionDef, ast.AsyncFunctionDef)):
+                continue
+            local, globs, alias = set(), set(), {}
+            a = fn.args
+            for x in a.posonlyargs + a.args + a.kwonlyargs + ([a.vararg] if a.vararg else []) + ([a.kwarg] if a.kwarg else []):
+                local.add(x.arg)
+            for n in ast.walk(fn):
+                if isinstance(n, ast.Global):
+                    globs.update(n.names)
+                if isinstance(n, ast.Name) and isinstance(n.ctx, ast.Store):
+                    local.add(n.id)
+            local -= globs
+            # local aliases of module-level objects:  v = MODNAME.attr / MODNAME[...] / MODNAME
+            for n in ast.walk(fn):
+                if isinstance(n, ast.Assign) and len(n.targets) == 1 and isinstance(n.targets[0], ast.Name):
+                    b = base_name(n.value) if isinstance(n.value, (ast.Attribute, ast.Subscript, ast.Name)) else None
+                    if b in modnames and b not in local:
+                        alias[n.targets[0].id] = b
+
+            def resolve(b):
+                if b in alias:
+                    return alias[b]
+                return b if (b in modnames and b not in local) else None
+            for n in ast.walk(fn):
+                if isinstance(n, (ast.Assign, ast.AugAssign, ast.AnnAssign, ast.Delete)):
+                    ts = n.targets if isinstance(n, (ast.Assign, ast.Delete)) else [n.target]
+                    for t in ts:
+                        for tt in (t.elts if isinstance(t, (ast.Tuple, ast.List)) else [t]):
+                            if isinstance(tt, (ast.Subscript, ast.Attribute)):
+                                b = resolve(base_name(tt))
+                                if b:
+                                    found.setdefault((mod, b), set()).add(fn.name)
+                            elif isinstance(tt, ast.Name) and tt.id in globs:
+                                found.setdefault((mod, tt.id), set()).add(fn.name)
+                if isinstance(n, ast.Call) and isinstance(n.func, ast.Attribute) and n.func.attr in MUT:
+                    b = resolve(base_name(n.func.value))
+                    if b:
+                        found.setdefault((mod, b), set()).add(fn.name)
+        if mod == 'fst_options':
+            # _OPTIONS = _ThreadOptions(), class _ThreadOptions(threading.local), no other module-level mention
+            cls_ok = any(isinstance(n, ast.ClassDef) and n.name == '_ThreadOptions'
+                         and any(ast.unparse(b) in ('threading.local', 'local') for b in n.bases) for n in tree.body)
+            inst_ok = any(isinstance(n, ast.Assign) and ast.unparse(n.targets[0]) == '_OPTIONS'
+                          and ast.unparse(n.value) == '_ThreadOptions()' for n in tree.body)
+            rep.other('structural', f'{prop}.thread.store_is_threading_local', cls_ok and inst_ok,
+                      detail='_OPTIONS = _ThreadOptions() and class _ThreadOptions(threading.local)',
+                      key=f'{prop}.thread.store_is_threading_local')
+            aliases = [n.lineno for n in tree.body if isinstance(n, (ast.Assign, ast.AnnAssign)) and n.value is not None
+                       and any(isinstance(x, ast.Name) and x.id == '_OPTIONS' for x in ast.walk(n.value))]
+            rep.other('structural', f'{prop}.thread.no_module_level_alias', not aliases,
+                      detail=f'module-level statements that capture the importing thread\'s store: lines {aliases}',
+                      key=f'{prop}.thread.no_module_level_alias',
+                      replay={'lines': aliases, 'verifier_output': 'a module-level alias of _OPTIONS / _OPTIONS.__dict__ '
+                              'binds the IMPORTING thread\'s dict for every thread'})
+    for key, fns in sorted(found.items()):
+        ok = key in ALLOWED_STATE
+        rep.other('structural', f'{prop}.thread.footprint.{key[0]}.{key[1]}', ok,
+                  detail=(ALLOWED_STATE.get(key) or 'module-level mutable state written after import that is not in the '
+                          'allowed list') + f'; written by {sorted(fns)}',
+                  key=f'{prop}.thread.footprint.{key[0]}.{key[1]}',
+                  replay={'state': list(key), 'writers': sorted(fns), 'verifier_output': 'structural footprint scan'})
+    w = found.get(('fst_options', '_OPTIONS'), set())
+    rep.other('structural', f'{prop}.per_call.only_option_api_writes_the_store', w <= OPTION_WRITERS and 'set_options' in w,
+              detail=f'functions writing _OPTIONS: {sorted(w)} (allowed: {sorted(OPTION_WRITERS)})',
+              key=f'{prop}.per_call.writers')
+    missing = [k for k in ALLOWED_STATE if k not in found]
+    if len(found) < 3:
+        rep.checker_error(f'footprint scan found only {sorted(found)} (scan broken?)')
+    rep.extra['footprint'] = {f'{k[0]}.{k[1]}': sorted(v) for k, v in found.items()}
